@@ -104,7 +104,7 @@ def obj(**members):
     return {k: v for k, v in members.items() if v is not ABSENT}
 
 
-JSONRPC_A = [ABSENT, '2.0', '1.0', 2.0, 2, None]
+JSONRPC_A = [ABSENT, '2.0', '1.0', 2.0, 2, None, ['2.0'], {'v': '2.0'}, True]
 ID_A = [ABSENT, None, 0, 1, -1, 2 ** 64, '', '1', 'x', 1.5, True, [], {}]
 METHOD_A = [ABSENT, 'echo', 'noargs', 'nosuch', '', 1, None]
 PARAMS_A = [ABSENT, [], {}, [1], {'a': 1}, [1, 2, 3], {'zz': 1}, None, 1, 's']
